@@ -18,13 +18,13 @@ import (
 
 // ChVal: a JSON-serialisable option value; T = null bool int float str list map
 type ChVal struct {
-	T string           `json:"t"`
-	B bool             `json:"b,omitempty"`
-	I int64            `json:"i,omitempty"`
-	F float64          `json:"f,omitempty"`
-	S string           `json:"s,omitempty"`
-	L []ChVal          `json:"l,omitempty"`
-	M []ChKV           `json:"m,omitempty"`
+	T string  `json:"t"`
+	B bool    `json:"b,omitempty"`
+	I int64   `json:"i,omitempty"`
+	F float64 `json:"f,omitempty"`
+	S string  `json:"s,omitempty"`
+	L []ChVal `json:"l,omitempty"`
+	M []ChKV  `json:"m,omitempty"`
 }
 type ChKV struct {
 	K string `json:"k"`
@@ -39,7 +39,7 @@ type ChCase struct {
 	Chain   []ChEntry `json:"chain"`
 	Key     string    `json:"key"`
 	Len     int       `json:"len"`
-	Proc    bool      `json:"proc"` // also start the real binary on this chain
+	Proc    bool      `json:"proc"`            // also start the real binary on this chain
 	Again   int       `json:"again,omitempty"` // build the chain from the SAME configuration value this many times first and use the last build
 }
 
@@ -343,7 +343,7 @@ func genChEntry(g *Rng, valid bool) ChEntry {
 }
 
 func genChCase(g *Rng) ChCase {
-	c := ChCase{Enabled: !g.Chance(8), Key: []string{"k1", "k1", "secret", "\x00", "", "K1", " "}[g.Intn(7)], Len: []int{0, 1, 8, 9, 16, 17, 1000, 1001}[g.Intn(8)]}
+	c := ChCase{Enabled: !g.Chance(8), Key: []string{"k1", "k1", "secret", "\x00", "", "K1", " ", "k1x", "k1k1", "secret key", "k1, k1", "xk1", "k"}[g.Intn(13)], Len: []int{0, 1, 8, 9, 16, 17, 1000, 1001}[g.Intn(8)]}
 	c.Again = []int{0, 0, 0, 1, 1, 2}[g.Intn(6)]
 	n := []int{0, 1, 2, 2, 3, 3, 4, 5, 5}[g.Intn(9)]
 	badAt := -1
@@ -352,7 +352,7 @@ func genChCase(g *Rng) ChCase {
 	}
 	for i := 0; i < n; i++ {
 		if i == badAt && g.Chance(35) {
-			c.Chain = append(c.Chain, ChEntry{Name: []string{"gzipp", "", "Logging", "size-limit", "auth", "custom_auth"}[g.Intn(6)]})
+			c.Chain = append(c.Chain, ChEntry{Name: []string{"gzipp", "", "Logging", "size-limit", "auth", "custom_auth", " ", "\t", "custom-auth "}[g.Intn(9)]})
 			continue
 		}
 		e := genChEntry(g, i != badAt)
@@ -404,6 +404,10 @@ func TestChain(t *testing.T) {
 	corpus := []ChCase{
 		{Enabled: true, Chain: []ChEntry{probe, auth, probe, sl, probe}, Key: "k1", Len: 8},
 		{Enabled: true, Chain: []ChEntry{probe, auth, probe, sl, probe}, Key: "nope", Len: 8},
+		{Enabled: true, Chain: []ChEntry{probe, auth, probe, sl, probe}, Key: "k1x", Len: 8},
+		{Enabled: true, Chain: []ChEntry{probe, auth, probe, sl, probe}, Key: "k1k1", Len: 8},
+		{Enabled: true, Chain: []ChEntry{probe, {Name: " "}, auth, probe}, Key: "k1"},
+		{Enabled: true, Chain: []ChEntry{{Name: ""}, auth}, Key: "k1", Proc: true},
 		{Enabled: true, Chain: []ChEntry{probe, auth, probe, sl, probe}, Key: "k1", Len: 9},
 		{Enabled: true, Chain: []ChEntry{{Name: "logging"}, {Name: "nonexistent"}}, Key: "k1", Proc: true},
 		{Enabled: true, Chain: []ChEntry{{Name: "custom-auth"}}, Key: "k1", Proc: true},
